@@ -272,7 +272,7 @@ class QCow2(AlignedStream):
             bytes_available = (self.l2_size - l2_index) << self.cluster_bits
             bytes_needed = min(bytes_needed, bytes_available)
 
-            if l1_index >= self.header.l1_size:
+            if l1_index >= len(self.l1_table):
                 # bytes_needed is already the smaller value here
                 read_count = bytes_needed - offset_in_cluster
 
